@@ -95,18 +95,18 @@ def check(tier="quick", seed=0):
             co = load_code(fp, magic2int(binascii.unhexlify(d["magic"])))
         except Exception as e:
             import traceback
-            vio.append({"name": "C01/bounded/consts-%s" % ver, "key": "consts:%s:raises" % ver, "input": "marshal.dumps of ground/consts_worker's program compiled by CPython %s" % h,
+            vio.append({"name": "bounded/consts-%s" % ver, "key": "consts:%s:raises" % ver, "input": "marshal.dumps of ground/consts_worker's program compiled by CPython %s" % h,
                         "detail": "load_code raised %s: %s | %s" % (type(e).__name__, str(e)[:100], traceback.format_exc()[-400:].replace("\n", " | "))})
             continue
         if fp.tell() != len(raw):
-            vio.append({"name": "C01/bounded/consts-%s" % ver, "key": "consts:%s:consumed" % ver, "input": "program of ground/consts_worker compiled by CPython %s" % h,
+            vio.append({"name": "bounded/consts-%s" % ver, "key": "consts:%s:consumed" % ver, "input": "program of ground/consts_worker compiled by CPython %s" % h,
                         "detail": "payload not consumed exactly: %d of %d bytes" % (fp.tell(), len(raw))})
         try:
             diff = first_diff(d["typed"], typed(co, d["version"][0] == 2))
         except Exception as e:
             diff = "typed dump of xdis's constants raised %s: %s" % (type(e).__name__, str(e)[:120])
         if diff:
-            vio.append({"name": "C01/bounded/consts-%s" % ver, "key": "consts:%s" % ver, "input": "program of ground/consts_worker compiled by CPython %s (marshal bytes %s...)" % (h, d["marshal"][:40]),
+            vio.append({"name": "bounded/consts-%s" % ver, "key": "consts:%s" % ver, "input": "program of ground/consts_worker compiled by CPython %s (marshal bytes %s...)" % (h, d["marshal"][:40]),
                         "detail": diff})
     if not ran:
         return {"name": "ground.consts_diff", "error": "no interpreter ran", "obligations": [], "violations": []}
